@@ -1,5 +1,6 @@
 #!/usr/bin/env python3
-"""Markdown table of the seeded changes and which quick checks flag them (from seeded/*/meta.json)."""
+"""Markdown table of the seeded changes and which quick checks flag them (from seeded/*/meta.json: the full sweep at the
+time the change was delivered, and — own_check_final — the own property's quick check of the final harness)."""
 import json,glob,os,re
 V=os.path.dirname(os.path.dirname(os.path.abspath(__file__)))
 rows=[]
@@ -10,7 +11,10 @@ for d in sorted(glob.glob(V+'/seeded/*/meta.json')):
     lines=[l.strip('# ').strip() for l in notes.splitlines() if l.strip()]
     title=lines[0] if lines else ''
     title=re.sub(r'^C\d+\s*/\s*m\d+\s*[—–-]+\s*','',title)
-    rows.append((m['breaks_property'],m['name'],title[:110],' '.join(m['caught_by_quick_checks']), 'yes' if m['caught_by_own_property_check'] else 'NO'))
+    own=m.get('own_check_final',{}).get('flagged', m['caught_by_own_property_check'])
+    caught=list(m['caught_by_quick_checks'])
+    if own and m['breaks_property'] not in caught: caught=sorted(caught+[m['breaks_property']])
+    rows.append((m['breaks_property'],m['name'],title[:110],' '.join(caught), 'yes' if own else 'NO'))
 print("| seeded change | what it is | caught by (quick tier) | own property's check |")
 print("|---|---|---|---|")
 for p,n,t,c,o in rows:
